@@ -22,6 +22,9 @@ Definition leaf_ok (k : leafR) (w : Rvec) : Prop :=
       (1 <= d)%nat /\ exists wb, allpos wb /\ length wb = m /\ w = concat (repeat wb d)
   | FSimplex d => 0 <= d /\ (1 <= n)%nat /\ exists c, uniform w c       (* sort-based: uniformly weighted space *)
   | FBall1 | FLInf => (1 <= n)%nat /\ uniform w 1                       (* sort-based: unweighted space *)
+  | FSumC _ => (1 <= n)%nat /\ exists c, uniform w c                    (* same offset for every entry: uniform weights *)
+  | FHuberG m d gamma =>
+      0 <= gamma /\ (1 <= d)%nat /\ exists wb, allpos wb /\ length wb = m /\ w = concat (repeat wb d)
   end.
 Definition leaf_vec_ok (k : leafR) : Prop :=
   match k with FL1 | FL2Sq | FConst _ | FBox _ _ | FIndZero _ | FGroupL1 _ _ false => True | _ => False end.
@@ -249,6 +252,22 @@ Proof.
     destruct s as [sg|v|a b]; cbn [leaf_sig_ok leaf_vec_ok] in Hs; [|tauto|contradiction].
     cbn [needs_scalar]. eexists; split; [reflexivity|].
     apply (is_proxs_ext n (@leaf_val R _ _ FBallInf w)); try reflexivity. apply ballinf_leaf_prox; auto.
+  - (* Huber on a vector field *)
+    destruct Hk as (Hg & Hd1 & wb & Pwb & Lwb & Ew).
+    destruct s as [sg|v|a b]; cbn [leaf_sig_ok leaf_vec_ok] in Hs; [|tauto|contradiction].
+    cbn [needs_scalar]. eexists; split; [reflexivity|].
+    assert (Ln : n = (d * m)%nat).
+    { unfold n. rewrite Ew. clear -Lwb. induction d; cbn [repeat concat]; [reflexivity|]. rewrite app_length, IHd. lia. }
+    cbn [sigv]. rewrite Ln in *. rewrite Ew. apply ghuber_leaf_prox; auto.
+  - (* sum constraint on a uniformly weighted space *)
+    destruct Hk as (Hn & c0 & Hu). unfold uniform in Hu. fold n in Hu.
+    destruct s as [sg|v|a b]; cbn [leaf_sig_ok leaf_vec_ok] in Hs; [|tauto|contradiction].
+    assert (Hc : 0 < c0).
+    { rewrite Hu in Pw. destruct n; [lia|]. cbn [repeat] in Pw. inversion Pw; assumption. }
+    eexists; split; [reflexivity|].
+    cbn [sigv]. rewrite Hu at 2. replace (metric (repeat c0 n) (repeat sg n)) with (repeat (c0 / sg) n).
+    + apply sumc_leaf_prox; auto. apply Rdiv_lt_0_compat; assumption.
+    + clear. induction n; cbn [repeat]; [reflexivity|]. unfold metric, vdiv in *. cbn [vmap2]. rewrite <- IHn. numR. reflexivity.
 Qed.
 
 (* ---- the constant of proximal_quadratic_perturbation ---- *)
